@@ -10,7 +10,7 @@ cd "$W/r"
 if ! git apply "$OUT/patch.diff"; then echo "$ID: PATCH DOES NOT APPLY to HEAD"; cd /; git -C /repo worktree remove --force "$W/r"; rm -rf "$W"; exit 9; fi
 /venv/bin/python "$OUT/demo.py" "$W/r" >"$W/demo_after.log" 2>&1; A=$?
 rm -rf .hypothesis
-T=$(/venv/bin/python -m pytest -q -p no:cacheprovider --timeout=900 --continue-on-collection-errors 2>&1 | tail -1)
+T=$(/venv/bin/python -m pytest -q -p no:cacheprovider --timeout=900 --continue-on-collection-errors --hypothesis-seed=1 2>&1 | tail -1)
 echo "$ID: demo unchanged=$B changed=$A tests: $T"
 case "$T" in *"49 passed"*) OK=1;; *) OK=0;; esac
 if [ "$B" = 0 ] && [ "$A" = 1 ] && [ "$OK" = 1 ]; then
@@ -22,12 +22,12 @@ import json, sys
 i, p, needs, t = sys.argv[1:5]
 json.dump({"id": i, "property": p, "needs_to_manifest": needs,
            "confirmed": {"demo_exit_unchanged_tree": 0, "demo_exit_changed_tree": 1, "baseline_tests_with_change": t.strip("= \n")},
-           "ran": ["git -C /repo worktree add --detach <scratch> HEAD", "python demo.py <scratch>  (exit 0)", "git apply patch.diff", "python demo.py <scratch>  (exit 1)", "pytest -q -p no:cacheprovider --timeout=900 --continue-on-collection-errors"],
+           "ran": ["git -C /repo worktree add --detach <scratch> HEAD", "python demo.py <scratch>  (exit 0)", "git apply patch.diff", "python demo.py <scratch>  (exit 1)", "pytest -q -p no:cacheprovider --timeout=900 --continue-on-collection-errors --hypothesis-seed=1  (test_normalized is a randomised hypothesis test that is flaky on the unchanged tree without a pinned seed)"],
            "origin": "independent sub-agent given only the property text and a scratch worktree"},
           open(f"/verif/seeded/{i}/meta.json", "w"), indent=1)
 PY
   echo "$ID: CONFIRMED and stored"
 else
-  echo "$ID: NOT confirmed"; tail -5 "$W/demo_before.log" "$W/demo_after.log"
+  echo "$ID: NOT confirmed"; tail -n 5 "$W/demo_before.log" "$W/demo_after.log"
 fi
 cd /; git -C /repo worktree remove --force "$W/r"; rm -rf "$W"
